@@ -148,6 +148,25 @@ theorem C06_creation_fee_nonnative (self d fee pay : Nat) (hd : d ≠ NATIVE) (h
   rw [if_neg hd]
   exact C06_nonnative_full ⟨d, pay⟩ fee hz hp
 
+/-! ## Whitelist fees -/
+
+/-- a whitelist fee `F ≠ 0` is fair-burned in full on behalf of the whitelist: floor(F/2) burned, the rest to the pool; nothing
+stays behind -/
+theorem C06_wl_fee_fair_burned (self F : Nat) (hF : F ≠ 0) :
+    wlFeeMsgs self F = [Msg.burn ⟨NATIVE, F / 2⟩, Msg.fundPool self ⟨NATIVE, F - F / 2⟩] ∧
+    sumAmounts (wlFeeMsgs self F) = F := by
+  unfold wlFeeMsgs
+  rw [if_neg hF]
+  exact ⟨C06_fairburn self F none, (C06_fairburn_sum self F none).1⟩
+
+/-- an upgrade crossing `k` thousand-boundaries costs exactly `k` buckets: the fees ever paid telescope to the creation fee of
+the current limit -/
+theorem C06_wl_fee_telescopes (per old new : Nat) (h : old ≤ new) :
+    wlCreationFee per old + wlUpgradeFee per old new = wlCreationFee per new := by
+  unfold wlCreationFee wlUpgradeFee wlTiers
+  have : (old + 999) / 1000 ≤ (new + 999) / 1000 := Nat.div_le_div_right (by omega)
+  rw [← Nat.add_mul]; congr 1; omega
+
 /-! ## The callers (which minter passes which flag and developer)
 
 `mintFeeMsgs k price b dev` is what one public mint on minter kind `k` emits for the network fee (`Model/Sg1.lean`; validated
